@@ -185,8 +185,9 @@ class C12(Prop):
                         if not rows_prefix(snap["t"][:nclean], snap["y"][:nclean], tsnap["t"], tsnap["y"]):
                             bad("prefix_of_twin", "rows recorded before the first perturbed step are not a prefix of the twin's", i)
                     oracles.check_rows(w, snap, pre_n - 1, P, P + ".prefix_step") if False else None
-                elif e is not None:
-                    bad("resume_completes", "op %d raised %s although the retry loop did not give up" % (i, snap["exc_type"]), i)
+                elif e is not None and type(e).__name__ != "FailedIntegration":
+                    # garbage from the rhs may make the step fail in other ways (overflow, LinAlgError): any FailedIntegration is a legal outcome
+                    bad("raises_failed_integration", "op %d raised %s under rhs spikes (expected FailedIntegration or completion)" % (i, snap["exc_type"]), i)
                 continue
             if i in fired_ops:
                 # ---------------- the failing call
